@@ -171,6 +171,28 @@ theorem C06_entry_trusts_only_matching_state (magic : Bytes) (version : Nat) (df
     exact ⟨hdf, h1, h2, h3, d, Or.inr hd, hp⟩
 
 open TV.Entry in
+/-- **C06_entry_only_next_to_the_file.** What the receiver calls: it resumes from a stored record only if the data file it is about to
+write is there with exactly the announced length and the record is the well-formed one lying *next to that file*, written for this
+id, size and chunk size. No other location is consulted. -/
+theorem C06_entry_only_next_to_the_file (magic : Bytes) (version : Nat) (df : DataFile) (primary : Option Bytes)
+    (fid : Bytes) (fs cs : Nat) (s : Sc) (h : entryAt magic version df primary fid fs cs = some s) :
+    df = .present fs ∧ s.fileID = fid ∧ s.fileSize = fs ∧ s.chunkSize = cs ∧ ∃ d, primary = some d ∧ parse magic version d = .ok s := by
+  obtain ⟨h1, h2, h3, h4, d, hd, hp⟩ := C06_entry_trusts_only_matching_state magic version df primary none fid fs cs s h
+  rcases hd with hd | hd
+  · exact ⟨h1, h2, h3, h4, d, hd, hp⟩
+  · cases hd
+
+open TV.Entry in
+/-- the receiver as it was: with no record next to the file being written, a record lying under `<out>/<root>` - written for the
+file of the same name over there - was resumed from, provided only that *some* file of the announced length stood at `<out>/<rel
+path>`; its bitmap then made the sender skip chunks that file never held -/
+theorem C06_entry_refuted_before_fix (magic : Bytes) (version : Nat) (elsewhere : Bytes) (fid : Bytes) (fs cs : Nat) (s : Sc)
+    (hl : loadValid magic version (some elsewhere) fid fs cs = some s) :
+    entryOld magic version (.present fs) none (some elsewhere) fid fs cs = some s := by
+  simp [entryOld, entry, kept, loadValid] at hl ⊢
+  exact hl
+
+open TV.Entry in
 /-- premises satisfiable / the two clauses apart: with the data file gone nothing is resumed, whatever the metadata says -/
 example (magic : Bytes) (version : Nat) (p f : Option Bytes) (fid : Bytes) (fs cs : Nat) :
     entry magic version .absent p f fid fs cs = none ∧ entry magic version (.present (fs + 1)) p f fid fs cs = none := by
@@ -182,7 +204,12 @@ set_option maxRecDepth 16384 in
 `LoadOrCreateSidecarWithFallback`, and its decisions (primary first, identity triple compared, mismatching file removed) -/
 theorem C06_source_entry :
     entry_stat_test = ["opts.Resume ; statErr != nil || info.Size() != int64(begin.FileSize)"] ∧
-    entry_removes = ["SidecarPath(baseDir, \"\", sidecarIdentifier(item))", "SidecarPath(rootedDir, \"\", sidecarIdentifier(item))"] ∧
+    entry_removes = ["SidecarPath(baseDir, \"\", sidecarIdentifier(item))"] ∧
+    -- both loads (`buildResumeInfo`, `handleFileBegin`) pass the record under `baseDir` and an empty fallback path (`entryAt`);
+    -- the data file the stat test looks at lies under the same `baseDir`
+    entry_load_args = ["primary, \"\", state.item.ID, state.item.Size, state.chunkSize", "primary, \"\", item.ID, int64(begin.FileSize), begin.ChunkSize"] ∧
+    entry_primary_path = ["SidecarPath(baseDir, \"\", sidecarIdentifier(state.item))", "SidecarPath(baseDir, \"\", sidecarIdentifier(item))"] ∧
+    entry_file_path = ["filepath.Join(baseDir, filepath.FromSlash(begin.RelPath))"] ∧
     entry_load_ifs = ["chunkSize == 0", "path == \"\"", "err != nil", "sc.ChunkSize != chunkSize || sc.FileSize != fileSize || sc.FileID != fileID",
       "err != nil", "err != nil ; ok", "err != nil", "err != nil ; ok"] := by decide
 
